@@ -54,9 +54,9 @@ func (fv *FV) term(st *State, v SymVal, t types.Type) Term {
 		recv := "0"
 		if len(v.Binds) == 1 && v.Binds[0].K == VTerm && v.Binds[0].T.Sort == SInt {
 			recv = v.Binds[0].T.S
-		} else if len(v.Binds) > 0 {
-			fv.outsidef("closure with captured cells used as a value (%s)", v.Fn.Name())
 		}
+		// a closure over local cells used as a value: opaque function value (its body is verified
+		// separately under its own contract, with the captured variables as unknowns)
 		return Term{S: fmt.Sprintf("(pv_mkfn %d %s)", fv.eng.fid(v.Fn), recv), Sort: SFn, T: t}
 	case VHeapPtr:
 		if len(v.Path) == 0 {
@@ -414,6 +414,7 @@ func (fv *FV) step(st *State) (*State, []*State) {
 		fv.setReg(st, x, cv)
 	case *ssa.ChangeType:
 		v := fv.val(st, x.X)
+		fv.htmlConv(st, x.X, x.Type(), v, x.Pos())
 		if v.K == VTerm {
 			v.T.T = x.Type()
 		}
@@ -442,7 +443,7 @@ func (fv *FV) step(st *State) (*State, []*State) {
 		ss := fv.sortOf(x.Type())
 		ln := fv.vterm(st, x.Len)
 		z := fv.zeroOfSort(es, elemType(x.Type()))
-		fv.setReg(st, x, tv(Term{S: fmt.Sprintf("(%s_mk ((as const (Array Int %s)) %s) %s)", ss, es, z.S, ln.S), Sort: ss, T: x.Type()}))
+		fv.setReg(st, x, tv(Term{S: fmt.Sprintf("(%s_mk %s %s)", ss, fv.constArray(es, z), ln.S), Sort: ss, T: x.Type()}))
 	case *ssa.MapUpdate:
 		fv.mapUpdate(st, x)
 	case *ssa.Lookup:
@@ -479,6 +480,26 @@ func (fv *FV) newObject(st *State, el types.Type, comment string) Term {
 	if stt, ok := el.Underlying().(*types.Struct); ok && fv.structSortName(el) != "" {
 		for i := 0; i < stt.NumFields(); i++ {
 			fv.heapStorePath(st, ref, el, []int{i}, fv.zero(stt.Field(i).Type()))
+		}
+	}
+	// ghost fields of a new object start at their zero value
+	for _, name := range sortedKeys(fv.eng.specs.Preds) {
+		ps := fv.eng.specs.Preds[name]
+		if !ps.Ghost || name != ps.Name || len(ps.Params) != 1 {
+			continue
+		}
+		pt, err := fv.eng.resolveType(ps.Params[0].Type, ps.PkgName)
+		if err != nil {
+			continue
+		}
+		if pel, ok := isPtr(pt); ok && types.Identical(pel, el) {
+			rt, err := fv.eng.resolveType(ps.Result, ps.PkgName)
+			if err != nil {
+				continue
+			}
+			hn := ghostHeapName(ps)
+			h := fv.heapGet(st.heap, st.epoch, hn, arraySort(SInt, fv.sortOf(rt)))
+			st.heap[hn] = fv.def(st, hn, tStore(h, ref, fv.zero(rt)))
 		}
 	}
 	return ref
@@ -618,11 +639,17 @@ func (fv *FV) binop(st *State, x *ssa.BinOp) {
 			res = tNot(eq)
 		}
 	default:
+		eq := tEq(l, r)
+		if l.Sort == SFn && r.S == "(pv_mkfn 0 0)" {
+			eq = tEq(Term{S: "(pv_fid " + l.S + ")", Sort: SInt}, mkInt(0))
+		} else if l.Sort == SFn && l.S == "(pv_mkfn 0 0)" {
+			eq = tEq(Term{S: "(pv_fid " + r.S + ")", Sort: SInt}, mkInt(0))
+		}
 		switch x.Op {
 		case token.EQL:
-			res = tEq(l, r)
+			res = eq
 		case token.NEQ:
-			res = tNot(tEq(l, r))
+			res = tNot(eq)
 		}
 	}
 	if res.IsZero() {
@@ -699,6 +726,7 @@ func (fv *FV) sliceOp(st *State, x *ssa.Slice) {
 
 func (fv *FV) convert(st *State, x *ssa.Convert) {
 	v := fv.vterm(st, x.X)
+	fv.htmlConv(st, x.X, x.Type(), tv(v), x.Pos())
 	from, to := fv.sortOf(x.X.Type()), fv.sortOf(x.Type())
 	switch {
 	case from == to:
@@ -713,7 +741,11 @@ func (fv *FV) convert(st *State, x *ssa.Convert) {
 		r := fv.strToSlice(v, x.Type())
 		fv.setReg(st, x, tv(r))
 	case strings.HasPrefix(from, "pv_Sl_") && to == SStr:
-		r := fv.sliceToStr(v)
+		isRune := false
+		if b, ok := elemType(x.X.Type()).Underlying().(*types.Basic); ok && b.Kind() == types.Int32 {
+			isRune = true
+		}
+		r := fv.sliceToStr(v, isRune)
 		r.T = x.Type()
 		fv.setReg(st, x, tv(r))
 	case from == SInt && to == SF64:
@@ -738,6 +770,9 @@ func (fv *FV) typeAssert(st *State, x *ssa.TypeAssert) {
 		val := tIte(okc, res, fv.zero(x.AssertedType))
 		val.T = x.AssertedType
 		tav := fv.def(st, "ta", val)
+		if _, isSl := x.AssertedType.Underlying().(*types.Slice); isSl {
+			fv.typeAssume(st, tav, x.AssertedType)
+		}
 		if _, isP := x.AssertedType.Underlying().(*types.Pointer); isP {
 			st.assume(tImp(okc, fv.isAlloc(st.heap, st.epoch, tav)))
 			fv.assumeTypeInvIf(st, okc, tav, x.AssertedType)
@@ -749,6 +784,9 @@ func (fv *FV) typeAssert(st *State, x *ssa.TypeAssert) {
 		return
 	}
 	fv.oblige(st, "assert-type", typeShort(x.AssertedType), x.Pos(), ok, "")
+	if _, isSl := x.AssertedType.Underlying().(*types.Slice); isSl {
+		fv.typeAssume(st, res, x.AssertedType)
+	}
 	if _, isP := x.AssertedType.Underlying().(*types.Pointer); isP {
 		st.assume(fv.isAlloc(st.heap, st.epoch, res))
 		fv.assumeTypeInv(st, res, x.AssertedType)
@@ -909,13 +947,48 @@ func (fv *FV) strToSlice(v Term, t types.Type) Term {
 	return r
 }
 
-func (fv *FV) sliceToStr(v Term) Term {
+func (fv *FV) sliceToStr(v Term, isRune bool) Term {
 	name := "pv_conv_str_" + smtName(v.Sort)
+	if isRune {
+		name = "pv_conv_runestr"
+	}
 	fv.decls.Add(1, name, fmt.Sprintf("(declare-fun %s (%s) pv_Str)", name, v.Sort))
-	if v.Sort == "pv_Sl_Int" {
+	if isRune {
 		// string(runes): every rune contributes one rune to the result, also in front of more text
 		fv.runeDecls()
 		fv.decls.Add(1, name+":rlen", fmt.Sprintf("(assert (forall ((r %s) (t pv_Str)) (! (= (pv_rlen (pv_cat (%s r) t)) (+ (%s_len r) (pv_rlen t))) :pattern ((pv_cat (%s r) t)))))", v.Sort, name, v.Sort, name))
 	}
 	return app(SStr, name, v)
+}
+
+func isTemplateHTML(t types.Type) bool {
+	n, ok := t.(*types.Named)
+	return ok && n.Obj().Pkg() != nil && n.Obj().Pkg().Path() == "html/template" && n.Obj().Name() == "HTML"
+}
+
+// htmlConv: converting text to template.HTML marks it as trusted markup (emitted verbatim by the
+// output sink). Every such conversion of non-constant text needs trusted(text) - text that already
+// went through the sink, template-author literals, or an explicitly licensed conversion (raw()).
+func (fv *FV) htmlConv(st *State, src ssa.Value, to types.Type, v SymVal, pos token.Pos) {
+	if !isTemplateHTML(to) || isTemplateHTML(src.Type()) {
+		return
+	}
+	if _, isConst := src.(*ssa.Const); isConst {
+		return
+	}
+	if fv.spec != nil && fv.spec.HTMLLicensed {
+		fv.assume("licensed conversion to template.HTML in " + fv.short + " (the helper's purpose: raw())")
+		return
+	}
+	var t Term
+	switch {
+	case v.K == VTerm && v.T.Sort == SStr:
+		t = v.T
+	case v.K == VTerm && strings.HasPrefix(v.T.Sort, "pv_Sl_"):
+		t = fv.sliceToStr(v.T, false)
+	default:
+		return
+	}
+	fv.decls.Add(1, "pv_trusted", "(declare-fun pv_trusted (pv_Str) Bool)\n(assert (pv_trusted pv_empty))")
+	fv.oblige(st, "htmlconv", "trusted", pos, Term{S: "(pv_trusted " + t.S + ")", Sort: SBool}, "text converted to template.HTML must be trusted markup")
 }
